@@ -60,6 +60,8 @@ type Ctx struct {
 	entry       *State
 	callOrd     int
 	inlineDepth int
+	analysingCallback bool
+	closureDepth int // how many of the enclosing inlined bodies are function literals of the function under verification
 	allocEntry  Term
 	tier        string
 	uf          map[string]bool
